@@ -492,7 +492,7 @@ func TestMemoryBounded(t *testing.T) {
 				p.PerPhase = 15000
 			}
 			res := runPair(p)
-			stateful := member != "noop" && member != "twcc-header-extension" && member != "packetdump-sender" && member != "packetdump-receiver" && member != "intervalpli"
+			stateful := member != "noop" && member != "twcc-header-extension" && member != "packetdump-sender" && member != "packetdump-receiver" && member != "intervalpli" && !strings.HasSuffix(member, "-custom")
 			rec.Case(kit.NewH().S(member).S(wl).U(p.Seed).Sum(), stateful && res.Skipped == "", []string{"member=" + member, "workload=" + wl}, func() any { return res })
 			if res.Skipped != "" {
 				rec.Class("inconclusive-pairs", 1)
